@@ -69,6 +69,8 @@ pub struct Cx {
     pub note: Option<String>,
     pub want_note: bool,
     pub strict: bool,
+    /// additional evaluations performed inside this case (e.g. a fault grid); the case itself counts 1
+    pub extra_evals: u64,
 }
 impl Cx {
     pub fn nt(&mut self) {
@@ -331,7 +333,7 @@ where
                         let r = absorb(env, no_panic(|| (self.eval)(&case, &mut cx)));
                         if counting {
                             let mut a = accs[w].lock().unwrap();
-                            a.evaluations += 1;
+                            a.evaluations += 1 + cx.extra_evals;
                             for l in &cx.labels {
                                 *a.labels.entry(l).or_default() += 1;
                             }
